@@ -236,6 +236,15 @@ function deepmergeArray(options: any) {
 
 const deepmerge = deepmergeConstructor({ mergeArray: deepmergeArray }) as (...args: unknown[]) => unknown;
 
+// `target[key] = value` would set the prototype instead of creating a property when key is "__proto__"
+function setOwnProperty(target: any, key: any, value: unknown): void {
+  if (key === "__proto__") {
+    Object.defineProperty(target, key, { value, enumerable: true, writable: true, configurable: true });
+  } else {
+    target[key] = value;
+  }
+}
+
 function maxErrorDepth(errors: DecodeError[]): number {
   let max = 0;
   for (const err of errors) {
@@ -2166,7 +2175,7 @@ export class ObjectRuntype extends BaseRuntype {
     if (ctx.objectKeyOrder === "input") {
       for (const k of inputKeys) {
         if (hasOwn.call(this.properties, k)) {
-          acc[k] = this.properties[k].parseAfterValidation(ctx, input[k]);
+          setOwnProperty(acc, k, this.properties[k].parseAfterValidation(ctx, input[k]));
           continue;
         }
 
@@ -2176,7 +2185,7 @@ export class ObjectRuntype extends BaseRuntype {
           if (isValid) {
             const itemParsed = p.value.parseAfterValidation(ctx, v);
             const keyParsed = p.key.parseAfterValidation(ctx, k);
-            acc[keyParsed as any] = itemParsed;
+            setOwnProperty(acc, keyParsed, itemParsed);
           }
         }
       }
@@ -2189,7 +2198,7 @@ export class ObjectRuntype extends BaseRuntype {
         }
         const v = input[k];
         const itemParsed = this.properties[k].parseAfterValidation(ctx, v);
-        acc[k] = itemParsed;
+        setOwnProperty(acc, k, itemParsed);
       }
 
       if (this.indexedPropertiesParser.length > 0) {
@@ -2201,7 +2210,7 @@ export class ObjectRuntype extends BaseRuntype {
             if (isValid) {
               const itemParsed = p.value.parseAfterValidation(ctx, v);
               const keyParsed = p.key.parseAfterValidation(ctx, k);
-              acc[keyParsed as any] = itemParsed;
+              setOwnProperty(acc, keyParsed, itemParsed);
             }
           }
         }
